@@ -35,6 +35,9 @@ def catalogue(tier):
     return [f for f in _CAT if os.path.getsize(os.path.join(REPO, 'tests', 'listing', f)) < 900000]
 
 
+BIG = 'TOUGH2/6/case6'       # 1.8 MB, EOS7c: its element table has an extra header line
+
+
 def image(rel):
     if rel not in _IMG:
         _IMG[rel] = open(os.path.join(REPO, 'tests', 'listing', rel), 'rb').read()
@@ -153,13 +156,44 @@ class ListingBase(Machine):
         self.op_budget = self.budget(data, lst.num_times)
         return lst
 
-    @staticmethod
-    def snap(lst):
+    ACCESS = 'ACCESS'
+
+    def snap(self, lst):
         tables = {}
         for name in lst._tablenames:
             t = lst._table[name]
             tables[name] = (tuple(t.row_name), t._data.copy())
+            self.check_access(lst, name, t)
         return (lst.index, float(lst.time), int(lst.step), tables)
+
+    def check_access(self, lst, name, t):
+        """What a caller reaches through the documented ways - the table as an attribute of the
+        listing, a row by its name, a row by its number - is what the table holds now."""
+        a = getattr(lst, name, None)
+        if a is not None and a is not t and not np.array_equal(a._data, t._data, equal_nan=True):
+            raise Violation(self.ACCESS, 'the table reached as listing.%s at index %r does not '
+                            'hold the numbers of the %s table the reader has just read'
+                            % (name, lst.index, name))
+        rows = t.row_name
+        n = len(rows)
+        for k in sorted(set((0, n // 2, n - 1))) if n else ():
+            key = rows[k]
+            if key in t.column_name:
+                continue
+            bynum = t[k]
+            vals = [bynum[c] for c in t.column_name]
+            if bynum['key'] != key or not np.array_equal(np.array(vals, dtype=float), t._data[k, :],
+                                                         equal_nan=True):
+                raise Violation(self.ACCESS, 'table %s at index %r: row number %d does not give '
+                                'the row the table holds there' % (name, lst.index, k))
+            if list(rows).count(key) != 1:
+                continue                    # a row name printed twice (TOUGH2-MP)
+            byname = t[key]
+            vals = [byname[c] for c in t.column_name]
+            if not np.array_equal(np.array(vals, dtype=float), t._data[k, :], equal_nan=True):
+                raise Violation(self.ACCESS, 'table %s at index %r: row %r looked up by name does '
+                                'not give the numbers the table holds' % (name, lst.index, key))
+        self.ctx.probes['table_access_checked'] += 1
 
     def fresh_at(self, rel, data, skip, i):
         """Snapshot of a freshly opened reader positioned directly at index i (cached per image:
@@ -320,17 +354,20 @@ class ListingBase(Machine):
         and moves about in it: readers must not share state."""
         cat = catalogue(self.tier)
         mine = (self.rel or '').split('/')[0]
-        if c % 2:
+        same_file = c % 3 == 2 and self.rel is not None and getattr(self, 'data', None) is not None
+        if same_file:
+            cand = [self.rel]            # the very file the main reader is on
+        elif c % 3 == 1:
             # same simulator family, another file (same column names, another layout)
             cand = [f for f in cat if f.split('/')[0] == mine and f != self.rel and
                     len(image(f)) < 450000]
         else:
             cand = [f for f in cat if f.split('/')[0] != mine and len(image(f)) < 450000]
         cand = cand or cat
-        rel = cand[(c // 2) % len(cand)]
+        rel = cand[(c // 3) % len(cand)]
         fs = self.ctx.fs
         fs.begin_op(None)
-        data = image(rel)
+        data = (getattr(self, 'live_data', None) or self.data) if same_file else image(rel)
         name = self.fs_name(rel, data)
         fs.put(name, data)
         try:
@@ -338,12 +375,15 @@ class ListingBase(Machine):
             if o.num_fulltimes > 1:
                 o.last()
                 o.first()
+                if same_file:
+                    o.index = (1 + c // 3) % o.num_fulltimes     # and is left somewhere else
         except (SimBudgetExceeded, SimCrash, HarnessError):
             raise
         except Exception as e:
             raise Violation('EXC', 'a second reader on %s raised %s' % (rel, _short_tb(e)))
         self.others = getattr(self, 'others', [])[-2:] + [o]
-        self.ctx.probes['second_reader_of_another_simulator'] += 1
+        self.ctx.probes['second_reader_of_the_same_file' if same_file else
+                        'second_reader_of_another_simulator'] += 1
         self.ctx.digest.add('OTHER', rel)
 
     def compare_snap(self, want, got, what, check='N1'):
@@ -421,6 +461,7 @@ def resolve_selection(lst, sel, rng):
 class NavMachine(ListingBase):
     """C07 — what a listing shows does not depend on how you navigated there."""
     PROP = 'C07'
+    ACCESS = 'N1.access'
     OPS = ('FIRST', 'LAST', 'NEXT', 'PREV', 'INDEX', 'TIME', 'STEP', 'HISTORY', 'OPEN', 'OTHER',
            'INDEX_BAD')
 
@@ -628,6 +669,8 @@ class NavMachine(ListingBase):
             multi = [f for f in cat if self.nsets(f) >= 2]
             cat = multi or cat
         rel = cat[ch[0] % len(cat)]
+        if self.tier != 'thorough' and ch[0] % 53 == 52:
+            rel = BIG          # the quick tier sees the one big listing now and then
         data = image(rel)
         n = self.nsets(rel)
         if n >= 2 and ch[2] % 4 == 0:
@@ -720,6 +763,7 @@ class NavMachine(ListingBase):
 class HistoryMachine(ListingBase):
     """C06 — history() equals stepping through the listing, terminates, leaves the cursor."""
     PROP = 'C06'
+    ACCESS = 'H4.access'
 
     @classmethod
     def knobs(cls, rng, tier):
@@ -760,6 +804,8 @@ class HistoryMachine(ListingBase):
                                                'AUTOUGH2/6/case6.listing',
                                                'AUTOUGH2/7/case7.listing')] or cat
             rel = cat[ch[0] % len(cat)]
+            if self.tier != 'thorough' and ch[0] % 29 == 28:
+                rel = BIG          # the quick tier sees the one big listing now and then
             data = image(rel)
             if self.lst is not None:
                 try:
@@ -1099,6 +1145,7 @@ def variants(tok, rng, room_left):
 
 class TableMachine(ListingBase):
     PROP = 'C05'
+    ACCESS = 'P6.access'
     OPS = ('TOKENS', 'REWRITE', 'SKIP', 'TRUNC', 'ADDR', 'OPEN')
 
     @classmethod
@@ -1249,11 +1296,40 @@ class TableMachine(ListingBase):
         order = list(range(n))
         rng.shuffle(order)
         order = order + [order[rng.randrange(n)] for _ in range(min(n, 3))]
+        self.live_data = new_data
         for vi, i in enumerate(order):
             if ch[0] % 3 == 0 and vi == 1 + (ch[0] // 3) % max(1, len(order) - 1):
                 # meanwhile another part of the program opens a listing of another simulator
-                self.other_reader(2 * (ch[0] // 7))
+                self.other_reader(ch[0] // 7)
+            if ch[0] % 5 == 1 and vi == (ch[0] // 5) % len(order) and n > 1 and \
+                    'element' in lst2._tablenames:
+                # the caller asks for the change between two result sets (which moves the
+                # reader about) before going where it wanted to go
+                j = (i + 1 + (ch[0] // 11) % (n - 1)) % n
+                self.guarded(lambda: lst2.get_difference(i, j), 'get_difference(%d, %d) on %s'
+                             % (i, j, self.rel))
+                ctx.probes['get_difference_between_visits'] += 1
             self.position(lst2, i, n, ch[1] + vi)
+            if ch[0] % 5 == 2 and vi == (ch[0] // 5) % len(order) and n > 1:
+                # table arithmetic with the table of a second reader standing elsewhere: the
+                # operands are not changed by it
+                j = (i + 1 + (ch[0] // 11) % (n - 1)) % n
+                lst3 = self.reader(new_data)
+                self.position(lst3, j, n, 0)
+                for nm in lst2._tablenames:
+                    a, b = getattr(lst2, nm, lst2._table[nm]), getattr(lst3, nm, lst3._table[nm])
+                    a0, b0 = a._data.copy(), b._data.copy()
+                    d = self.guarded(lambda: (a - b, a + b), 'table arithmetic on %s' % nm)
+                    if not (np.array_equal(d[0]._data, a0 - b0, equal_nan=True) and
+                            np.array_equal(d[1]._data, a0 + b0, equal_nan=True)):
+                        raise Violation('P6.arith', '%s table %s: difference / sum of the tables '
+                                        'at result sets %d and %d is not the difference / sum of '
+                                        'their numbers' % (self.rel, nm, i, j))
+                    if not np.array_equal(b._data, b0, equal_nan=True):
+                        raise Violation('P6.arith', '%s table %s: table arithmetic changed its '
+                                        'right operand' % (self.rel, nm))
+                lst3.close()
+                ctx.probes['table_arithmetic_between_readers'] += 1
             got = self.snap(lst2)
             want = self.fresh_at(self.rel, old_data, (), i)
             if list(got[3]) != list(want[3]):
@@ -1298,6 +1374,7 @@ class TableMachine(ListingBase):
                                        [(c[0], c[1], c[5], c[6]) for c in cells]),
                                     key=self.p2_key(cells))
         lst2.close()
+        self.live_data = None
         self.data = new_data
         return tuple(sorted(set(c[7] for c in cells)))
 
